@@ -212,6 +212,49 @@ Definition c18_never_stalls (c : case) : bool :=
   if rs_deleting (rc_spec c) && rs_finalizer (rc_spec c) && negb (ob_gone o) && ob_finalizer o && negb (ob_panic o)
   then ob_err o || ob_requeue o || negb (rstatus_eqb (rc_status c) (ob_status o)) else true.
 
+(* ---------- C07: a quiet reconcile is waiting for somebody else ----------
+   A reconcile that changes nothing (status, BatchRelease, workload annotation), reports no error and asks for no requeue
+   will not run again by itself.  That is legitimate only while the next move is somebody else's: the workload controller's
+   (workload missing / status lagging), the BatchRelease controller's (this step's plan is in place and not yet reported
+   Ready), or the user's (spec.paused, a pause without duration, a hand-written state).  Anything else is a wait for a
+   wake-up that will not come. *)
+Definition br_waiting (sp : ro_spec) (u : sub) (w : wl) (br : option brel) : bool :=
+  match br with
+  | Some b => br_spec_eqb b (desired_br sp (rollout_id w) (su_idx u - 1) (wl_in_rollback w) br) &&
+              (negb (br_consistent b) || negb (br_state_ready b) || (br_batch b + 1 <? su_idx u))
+  | None => false end.
+Definition manual_pause (sp : ro_spec) (u : sub) (shortcut : bool) : bool :=
+  match get_step sp (su_idx u) with
+  | Some cur => negb (shortcut && (nsteps sp =? su_idx u) && ios_eqb (sp_replicas cur) (IPct 100)) &&
+                match sp_pause cur with None => true | Some _ => false end
+  | None => false end.
+Definition waits_rolling (sp : ro_spec) (u : sub) (w : wl) (br : option brel) : bool :=
+  match su_state u with
+  | StUpgrade => br_waiting sp u w br
+  | StPaused => manual_pause sp u true
+  | StOther => true
+  | _ => false end.
+Definition waits_on (sp : ro_spec) (st : ro_status) (w : wl) (br : option brel) : bool :=
+  match rp_phase st with
+  | RpProgressing =>
+    negb (wl_exists w) || negb (wl_consistent w) ||
+    match rp_prog st with
+    | Some (PrInRolling, _, _) =>
+      match rp_sub st with Some u => let u1 := observed_sub w u in waits_rolling sp u1 w (synced_br u1 br) | None => false end
+    | Some (PrPaused, _, _) => rs_paused sp
+    | Some (PrOther, _, _) => true
+    | _ => false end
+  | RpTerminating | RpDisabling => false
+  | _ => true
+  end.
+Definition quiet_obs (c : case) : bool :=
+  let o := rc_obs c in
+  negb (ob_panic o) && negb (ob_gone o) && negb (ob_err o) && negb (ob_requeue o) &&
+  rstatus_eqb (rc_status c) (ob_status o) && opt_eqb br_eqb (rc_br c) (ob_br o) &&
+  Bool.eqb (wl_exists (rc_wl c) && wl_in_progress (rc_wl c)) (ob_anno o).
+Definition c07_quiet_means_waiting (c : case) : bool :=
+  if quiet_obs c && negb (rs_deleting (rc_spec c)) then waits_on (rc_spec c) (rc_status c) (rc_wl c) (rc_br c) else true.
+
 Definition in_domain (c : case) : bool :=
   let sp := rc_spec c in
   negb (Nat.eqb (List.length (rs_steps sp)) 0) &&
@@ -236,7 +279,8 @@ Definition judge (c : case) : list verdict :=
    [ clause "C02_steps_are_gated" (c02_gated c);
      clause "C02_paused_no_progress" (c02_paused c);
      clause "C02_partition_raise_authorised" (c02_partition c);
-     clause "C10_rollback_and_supersession_dispatch" (c10_dispatch c) ]) ++
+     clause "C10_rollback_and_supersession_dispatch" (c10_dispatch c);
+     clause "C07_quiet_reconcile_is_waiting_for_someone" (c07_quiet_means_waiting c) ]) ++
   [ clause "C18_rollout_finalizer_guard" (c18_finalizer c);
     clause "C18_rollout_teardown_never_stalls" (c18_never_stalls c) ] ++
   (if ob_panic o || ob_gone o then [] else
